@@ -814,7 +814,7 @@ pub fn arch(c: &OpCase) -> ZkStdLibArch {
         "ff" | "big" => crate::ops_ff::arch(c),
         "ec" => crate::ops_ecc::arch(c),
         "h" => crate::ops_hash::arch(c),
-        "b64" => crate::ops_parse::b64_arch(c),
+        "b64" | "b64v" => crate::ops_parse::b64_arch(c),
         "map" => crate::ops_map::arch(c),
         "pi" => crate::ops_pi::arch(c),
         _ => ZkStdLibArch { nr_pow2range_cols: c.cols, ..ZkStdLibArch::default() },
@@ -828,6 +828,7 @@ pub fn body<L: Layouter<F>>(c: &OpCase, s: &ZkStdLib, l: &mut L, w: &[Value<F>],
         "ec" => crate::ops_ecc::body(c, s, l, w, wb),
         "h" => crate::ops_hash::body(c, s, l, w),
         "b64" => crate::ops_parse::b64_body(c, s, l, w),
+        "b64v" => crate::ops_parse::b64v_body(c, s, l, w),
         "map" => crate::ops_map::body(c, s, l, w),
         "pi" => crate::ops_pi::body(c, s, l, w, wb),
         _ => {
@@ -882,6 +883,11 @@ pub fn judge(c: &OpCase, publics: &[Fq]) -> Judgement {
             Ok(false) => Judgement::Inadmissible,
             Err(e) => Judgement::Wrong(e),
         },
+        "b64v" => match crate::ops_parse::b64v_check(c, publics) {
+            Ok(true) => Judgement::Holds,
+            Ok(false) => Judgement::Inadmissible,
+            Err(e) => Judgement::Wrong(e),
+        },
         "b64" => match crate::ops_parse::b64_check(c, publics) {
             Ok(true) => Judgement::Holds,
             Ok(false) => Judgement::Inadmissible,
@@ -929,6 +935,7 @@ pub fn expected_admissible(c: &OpCase) -> bool {
         "rx" => crate::ops_parse::rx_expected_admissible(c),
         "sp" | "vh" | "map" => true,
         "b64" => crate::ops_parse::b64_expected_admissible(c),
+        "b64v" => crate::ops_parse::b64v_expected_admissible(c),
         _ => {
             let ins: Vec<Fq> = c.ins.iter().map(|x| x.0).collect();
             native_eval(c, &ins).is_some()
@@ -952,7 +959,9 @@ pub fn all_ops() -> Vec<String> {
 }
 
 pub fn gen_case(rng: &mut Prng, op: &str) -> OpCase {
-    if op.starts_with("map.") {
+    if op.starts_with("b64v.") {
+        crate::ops_parse::b64v_gen_case(rng, op)
+    } else if op.starts_with("map.") {
         crate::ops_map::gen_case(rng)
     } else if op.starts_with("vh.") {
         crate::ops_hash::varsha::gen_case(rng)
